@@ -48,13 +48,13 @@ typedef struct { char rets[4096]; int nret; int verdict; char line[8192]; char k
 
 static int fd = -1;
 
-/* one complete transfer with the given cut positions (sorted, 0 < cut < nbody) */
-static void run_partition(zcase *c, const size_t *cuts, int ncuts, zres *r) {
-    /* target file */
+typedef struct { zckCtx *zck; zckChunk *chk[MAXCH]; } ztarget;
+
+/* target file + target context with the chunk table of the case */
+static void setup_target(zcase *c, ztarget *t) {
     if(fd < 0) fd = zh_memfd("", 0);
     if(ftruncate(fd, 0) != 0 || pwrite(fd, c->init, c->ninit, 0) != (ssize_t)c->ninit) { perror("init"); exit(2); }
     lseek(fd, 0, SEEK_SET);
-    /* target context */
     zckCtx *zck = zck_create();
     zck->mode = ZCK_MODE_READ;
     zck->fd = fd;
@@ -63,76 +63,60 @@ static void run_partition(zcase *c, const size_t *cuts, int ncuts, zres *r) {
     zck->data_offset = c->doff;
     zck->lead_size = c->doff;
     zck->header_length = 0;
-    zckChunk *chk[MAXCH];
     for(int i = 0; i < c->nch; i++) {
-        /* the uncompressed size plays no role on the download path: give it values that differ from
-           the stored size (larger for odd, smaller for even chunks) so that any use of it shows */
-        size_t orig = c->len[i] == 0 ? 0 : ((i % 2) ? c->len[i] * 3 + 5 : c->len[i] / 2 + 1);
-        if(!index_new_chunk(zck, &zck->index, (char*)c->digest[i], c->dsz, NULL, c->len[i], orig, NULL,
+        if(!index_new_chunk(zck, &zck->index, (char*)c->digest[i], c->dsz, NULL, c->len[i], c->len[i], NULL,
                             c->flag0[i] == 1)) { printf("BADCASE index\n"); exit(2); }
-        chk[i] = zck->index.last;
-        chk[i]->valid = c->flag0[i] == 2 ? -1 : c->flag0[i];
+        t->chk[i] = zck->index.last;
+        t->chk[i]->valid = c->flag0[i] == 2 ? -1 : c->flag0[i];
     }
-    /* range */
-    zckRange *range = NULL;
-    int ridx_bad = 0;
-    if(c->autor) {
-        range = zck_get_missing_range(zck, -1);
-        int k = 0;
-        for(zckChunk *e = range ? range->index.first : NULL; e; e = e->next, k++)
-            if(k >= c->nridx || e->src != chk[c->ridx[k]]) ridx_bad = 1;
-        if(k != c->nridx) ridx_bad = 1;
-    } else {
-        range = zmalloc(sizeof(zckRange));
-        for(int k = 0; k < c->nridx; k++) {
-            zckChunk *t = chk[c->ridx[k]];
-            if(!index_new_chunk(zck, &range->index, t->digest, t->digest_size, t->digest_uncompressed,
-                                t->comp_length, t->comp_length, t, false)) { printf("BADCASE ridx\n"); exit(2); }
-        }
-    }
-    for(int i = 0; i < c->nch; i++)
-        chk[i]->valid = c->flag[i] == 2 ? -1 : c->flag[i];
-    zckDL *dl = zck_dl_init(zck);
-    zck_dl_set_range(dl, range);
-    /* header lines */
-    for(int i = 0; i < c->nhdr; i++) {
-        char *b = malloc(c->hdrlen[i] ? c->hdrlen[i] : 1);   /* exact size: ASan sees over-reads */
-        memcpy(b, c->hdr[i], c->hdrlen[i]);
-        zck_header_cb(b, 1, c->hdrlen[i], dl);
+    t->zck = zck;
+}
+
+/* feed header lines and the body cut at the given positions; returns 1 when every callback took its bytes */
+static int feed_transfer(zcase *c, ztarget *t, zckDL *dl, unsigned char **hdr, size_t *hdrlen, int nhdr,
+                         unsigned char *body, size_t nbody, const size_t *cuts, int ncuts, zres *r) {
+    for(int i = 0; i < nhdr; i++) {
+        char *b = malloc(hdrlen[i] ? hdrlen[i] : 1);   /* exact size: ASan sees over-reads */
+        memcpy(b, hdr[i], hdrlen[i]);
+        zck_header_cb(b, 1, hdrlen[i], dl);
         free(b);
     }
-    /* body fragments */
-    r->nret = 0; r->verdict = 1;
     size_t prev = 0;
+    int all_ok = 1;
     for(int k = 0; k <= ncuts; k++) {
-        size_t endp = k < ncuts ? cuts[k] : c->nbody;
+        size_t endp = k < ncuts ? cuts[k] : nbody;
         if(endp <= prev) continue;
         size_t n = endp - prev;
         char *b = malloc(n);
-        memcpy(b, c->body + prev, n);
+        memcpy(b, body + prev, n);
         size_t ret = zck_write_chunk_cb(b, 1, n, dl);
         free(b);
         prev = endp;
         int ok = ret == n;
         if(r->nret < (int)sizeof(r->rets) - 1) r->rets[r->nret++] = ok ? '1' : '0';
         if(!ok) {
+            all_ok = 0;
             r->verdict = 0;
-            if(c->clr) { zck_clear_error(zck); continue; }
+            if(c->clr) { zck_clear_error(t->zck); continue; }
             break;
         }
     }
+    return all_ok;
+}
+
+/* final file, masked file, flags and chunk classes */
+static void finish_result(zcase *c, ztarget *t, zres *r, int ridx_bad) {
     r->rets[r->nret] = 0;
-    /* result */
     struct stat st; fstat(fd, &st);
     size_t L = st.st_size;
     unsigned char *f = malloc(L + 1), *m = malloc(L + 1);
     if(pread(fd, f, L, 0) != (ssize_t)L) { perror("pread"); exit(2); }
     memcpy(m, f, L);
     for(int k = 0; k < c->nridx; k++) {
-        int t = c->ridx[k];
-        if(c->flag[t] == 1) continue;
-        size_t o = c->doff + c->start[t];
-        for(size_t i = o; i < o + c->len[t] && i < L; i++) m[i] = 0;
+        int tt = c->ridx[k];
+        if(c->flag[tt] == 1) continue;
+        size_t o = c->doff + c->start[tt];
+        for(size_t i = o; i < o + c->len[tt] && i < L; i++) m[i] = 0;
     }
     char fh[65], mh[65], v[2048]; int vp = 0;
     sha256hex(f, L, fh); sha256hex(m, L, mh);
@@ -147,16 +131,93 @@ static void run_partition(zcase *c, const size_t *cuts, int ncuts, zres *r) {
         else if(allz) cl = 'Z';
         else if(have == ihave && memcmp(f + o, c->init + o, have) == 0) cl = 'I';
         else cl = 'O';
-        vp += snprintf(v + vp, sizeof(v) - vp, "%s%d%c", i ? "," : "", chk[i]->valid, cl);
+        vp += snprintf(v + vp, sizeof(v) - vp, "%s%d%c", i ? "," : "", t->chk[i]->valid, cl);
     }
     if(c->nch == 0) v[0] = 0;
     snprintf(r->line, sizeof(r->line), "R=%s L=%zu F=%s M=%s V=%s%s", r->rets, L, fh, mh, v, ridx_bad ? " RIDX-MISMATCH" : "");
     snprintf(r->key, sizeof(r->key), "%s L=%zu F=%s V=%s", r->verdict ? "true" : "false", L, fh, v);
     free(f); free(m);
+}
+
+/* one complete transfer with the given cut positions (sorted, 0 < cut < nbody) */
+static void run_partition(zcase *c, const size_t *cuts, int ncuts, zres *r) {
+    ztarget t;
+    setup_target(c, &t);
+    zckCtx *zck = t.zck;
+    zckRange *range = NULL;
+    int ridx_bad = 0;
+    if(c->autor) {
+        range = zck_get_missing_range(zck, -1);
+        int k = 0;
+        for(zckChunk *e = range ? range->index.first : NULL; e; e = e->next, k++)
+            if(k >= c->nridx || e->src != t.chk[c->ridx[k]]) ridx_bad = 1;
+        if(k != c->nridx) ridx_bad = 1;
+    } else {
+        range = zmalloc(sizeof(zckRange));
+        for(int k = 0; k < c->nridx; k++) {
+            zckChunk *tc = t.chk[c->ridx[k]];
+            if(!index_new_chunk(zck, &range->index, tc->digest, tc->digest_size, tc->digest_uncompressed,
+                                tc->comp_length, tc->comp_length, tc, false)) { printf("BADCASE ridx\n"); exit(2); }
+        }
+    }
+    for(int i = 0; i < c->nch; i++)
+        t.chk[i]->valid = c->flag[i] == 2 ? -1 : c->flag[i];
+    zckDL *dl = zck_dl_init(zck);
+    zck_dl_set_range(dl, range);
+    r->nret = 0; r->verdict = 1;
+    feed_transfer(c, &t, dl, c->hdr, c->hdrlen, c->nhdr, c->body, c->nbody, cuts, ncuts, r);
+    finish_result(c, &t, r, ridx_bad);
     zck_dl_free(&dl);
     zck_range_free(&range);
     zck->fd = -1;
     zck_free(&zck);
+}
+
+/* several transfers on ONE zckDL, driven like src/zck_dl.c: before every request zck_dl_reset,
+ * zck_get_missing_range, zck_dl_set_range; afterwards zck_dl_set_range(NULL) + zck_range_free.
+ * spec = t/t/...  t = hdrs:body:parts */
+static int split(char *s, char sep, char **out, int max);
+static void run_session(zcase *c, char *spec, zres *r) {
+    ztarget t;
+    setup_target(c, &t);
+    zckDL *dl = zck_dl_init(t.zck);
+    r->nret = 0; r->verdict = 1;
+    char *tr[64]; int ntr = 0;
+    tr[ntr++] = spec;
+    for(char *p = spec; *p; p++) if(*p == '/') { *p = 0; if(ntr < 64) tr[ntr++] = p + 1; }
+    for(int k = 0; k < ntr; k++) {
+        char *f1 = tr[k], *f2 = strchr(f1, ':'), *f3 = f2 ? strchr(f2 + 1, ':') : NULL;
+        if(!f2 || !f3) { printf("BADCASE transfer\n"); exit(2); }
+        *f2++ = 0; *f3++ = 0;
+        if(k && r->nret < (int)sizeof(r->rets) - 1) r->rets[r->nret++] = '/';
+        zck_dl_reset(dl);
+        zckRange *range = zck_get_missing_range(t.zck, -1);
+        if(range == NULL || !zck_dl_set_range(dl, range)) { printf("BADCASE range\n"); exit(2); }
+        char *hp[64]; unsigned char *hdr[64]; size_t hdrlen[64];
+        int nh = split(f1, ',', hp, 64);
+        for(int i = 0; i < nh; i++) hdr[i] = zh_unhex(hp[i], &hdrlen[i]);
+        size_t nbody; unsigned char *body = zh_unhex(f2, &nbody);
+        size_t *cuts = malloc(sizeof(size_t) * (nbody + 2)); int nc = 0;
+        if(f3[0] == 'k') {
+            size_t kk = strtoul(f3 + 1, NULL, 10);
+            for(size_t p = kk; kk > 0 && p < nbody; p += kk) cuts[nc++] = p;
+        } else if(f3[0] == 'c') {
+            char *cp[4096]; int m = split(f3 + 1, '.', cp, 4096);
+            for(int i = 0; i < m; i++) { size_t v = strtoul(cp[i], NULL, 10); if(v > 0 && v < nbody) cuts[nc++] = v; }
+            for(int i = 1; i < nc; i++) for(int j = i; j > 0 && cuts[j-1] > cuts[j]; j--) { size_t tmp = cuts[j]; cuts[j] = cuts[j-1]; cuts[j-1] = tmp; }
+            int u = 0; for(int i = 0; i < nc; i++) if(u == 0 || cuts[u-1] != cuts[i]) cuts[u++] = cuts[i];
+            nc = u;
+        }
+        feed_transfer(c, &t, dl, hdr, hdrlen, nh, body, nbody, cuts, nc, r);
+        for(int i = 0; i < nh; i++) free(hdr[i]);
+        free(body); free(cuts);
+        zck_dl_set_range(dl, NULL);
+        zck_range_free(&range);
+    }
+    finish_result(c, &t, r, 0);
+    zck_dl_free(&dl);
+    t.zck->fd = -1;
+    zck_free(&t.zck);
 }
 
 static int split(char *s, char sep, char **out, int max) {
@@ -175,7 +236,12 @@ int main(void) {
         char *tok[16]; int nt = 0;
         char *copy = strdup(line);
         for(char *p = strtok(copy, " "); p && nt < 16; p = strtok(NULL, " ")) tok[nt++] = p;
-        if(nt != 10 || strcmp(tok[0], "X") != 0) { printf("BADCASE\n"); fflush(stdout); free(copy); continue; }
+        int session = nt == 6 && strcmp(tok[0], "S") == 0;
+        if(session) {
+            /* S ht doff chunks transfers opts  ->  same slots as X with an empty request / body */
+            tok[9] = tok[5]; tok[8] = tok[4]; tok[4] = "-"; tok[5] = "-"; tok[6] = "-"; tok[7] = "-";
+            nt = 10;
+        } else if(nt != 10 || strcmp(tok[0], "X") != 0) { printf("BADCASE\n"); fflush(stdout); free(copy); continue; }
         zcase *c = calloc(1, sizeof(zcase));
         c->ht = atoi(tok[1]); c->doff = atoi(tok[2]);
         c->dsz = c->ht == 0 ? 20 : c->ht == 1 ? 32 : c->ht == 2 ? 64 : 16;
@@ -218,7 +284,13 @@ int main(void) {
         if(trunc < c->ninit) c->ninit = trunc;
         zres *r = malloc(sizeof(zres)), *b = malloc(sizeof(zres));
         char *ps = tok[8];
-        if(strcmp(ps, "all1") == 0 || strcmp(ps, "all2") == 0) {
+        if(session) {
+            /* what may be filled: every chunk that is missing at the start and has bytes */
+            c->nridx = 0;
+            for(int i = 0; i < c->nch; i++) if(c->flag0[i] == 0 && c->len[i] > 0) c->ridx[c->nridx++] = i;
+            run_session(c, ps, r);
+            printf("%s\n", r->line);
+        } else if(strcmp(ps, "all1") == 0 || strcmp(ps, "all2") == 0) {
             run_partition(c, NULL, 0, b);
             long total = 0, agree = 0; char first[9000] = "";
             size_t cuts[2];
